@@ -489,11 +489,14 @@ func isZeroSSA(v ssa.Value) bool {
 
 // flagField: the atomic field of the driver that the completion function wins by compare-and-swap.
 func (d *driverModel) flagField() *types.Var {
-	for _, b := range d.searchCompleted.Blocks {
-		for _, ins := range b.Instrs {
-			if call, ok := ins.(ssa.CallInstruction); ok && isAtomicMethod(call.Common().StaticCallee(), "CompareAndSwap") {
-				if f := fieldOfValue(call.Common().Args[0]); f != nil {
-					return f
+	// the completion function or a helper of the driver package it is split into
+	for _, fn := range funcFamily(d.searchCompleted) {
+		for _, b := range fn.Blocks {
+			for _, ins := range b.Instrs {
+				if call, ok := ins.(ssa.CallInstruction); ok && isAtomicMethod(call.Common().StaticCallee(), "CompareAndSwap") {
+					if f := fieldOfValue(call.Common().Args[0]); f != nil {
+						return f
+					}
 				}
 			}
 		}
